@@ -54,6 +54,9 @@ def jobs(tier, seed):
         add(d, assume=[["gt", "b", 0], ["ne", "b", 1]])
     for d in [["Power", fam.C(1), fam.P(1)], ["Power", fam.P(1), fam.C(1)], ["Divide", fam.C(1), fam.C(2)], ["Multiply", fam.C(1), fam.P(1)]]:
         add(d)
+    # a bare number in place of the point (one-variable expressions), including the number 0
+    for d in fam.unary_variants(fam.X, tier) + [["Divide", ["const", 1], fam.X], ["Add", ["NthPower", fam.X, 2], ["const", 3]], ["Multiply", fam.X, ["Reciprocal", fam.X]]]:
+        add(d, routes=("eval_num",), var="x", supplied=["x"])
     f2 = fam.f2_quick(6, 1) if tier == "quick" else fam.f2("thorough")
     for d in f2:
         add(d)
